@@ -3,7 +3,7 @@
 (* Trace validation: reads the ndjson trace recorded from the real RWA      *)
 (* token (env TRACE), advances the ghost state of Rwa.tla by each recorded  *)
 (* step and evaluates every monitor on it.  Violations are collected        *)
-(* (printed as VIOL lines); after a violation the rest of that run is       *)
+(* (printed as VIOL lines); after a violation of a property the monitors of that property are       *)
 (* skipped and validation resumes at the next reset event.  `cnt` counts,   *)
 (* per monitor, the steps on which its antecedent held.                     *)
 (***************************************************************************)
@@ -23,21 +23,20 @@ Norm(ev) == [op    |-> [op |-> ev.op.op, from |-> ev.op.from, to |-> ev.op.to, s
              evs   |-> [i \in 1..Len(ev.evs) |-> ev.evs[i]],
              run   |-> ev.run, i |-> ev.i]
 
-Init == l = 1 /\ g = GInit({}) /\ dead = FALSE /\ cnt = [m \in Monitors |-> 0]
+Init == l = 1 /\ g = GInit({}) /\ dead = {} /\ cnt = [m \in Monitors |-> 0]
 
 Report(ev, m) == PrintT(<<"VIOL", ToJson([run |-> ev.run, i |-> ev.i, line |-> l, mon |-> m,
-                                          prop |-> PropOf(m), key |-> Key(m, g, ev)])>>)
+                                          prop |-> PropOf(m), key |-> Key(m, g, ev), after |-> dead])>>)
 
 Next ==
   /\ l <= Len(Rec)
   /\ l' = l + 1
   /\ LET raw == Rec[l] IN
      \* the universe of a run is the set of accounts its reset event reports balances for
-     IF raw.op.op = "reset" THEN g' = GInit(ToSet(raw.op.accts)) /\ dead' = FALSE /\ UNCHANGED cnt
-     ELSE IF dead THEN UNCHANGED <<g, dead, cnt>>
-     ELSE LET ev == Norm(raw)  f == Failing(g, ev) IN
+     IF raw.op.op = "reset" THEN g' = GInit(ToSet(raw.op.accts)) /\ dead' = {} /\ UNCHANGED cnt
+     ELSE LET ev == Norm(raw)  f == {m \in Failing(g, ev) : PropOf(m) \notin dead} IN
           /\ \A m \in f : Report(ev, m)
-          /\ dead' = (f # {})
+          /\ dead' = dead \cup {PropOf(m) : m \in f}
           /\ g' = GNext(g, ev)
           /\ cnt' = [m \in Monitors |-> cnt[m] + IF Ante(m, g, ev) THEN 1 ELSE 0]
   /\ (l = Len(Rec) => PrintT(<<"DONE", l, ToJson(cnt')>>))
